@@ -158,6 +158,22 @@ def work(shard, rec):
             check_de(rec, de, a, b)
             rec.ev()
             rec.nontrivial((a, b))
+            if i % 9 == 0:
+                # caller-owned list objects overwritten in place between two back-to-back calls
+                la, lb = list(a), list(b)
+                try:
+                    de(la, lb)
+                    la[:] = [min(255, max(0, v + rnd.choice([-30, -6, 8, 45]))) for v in la]
+                    if i % 18 == 0:
+                        lb[:] = [min(255, max(0, v + rnd.choice([-25, 7, 50]))) for v in lb]
+                    got = de(la, lb)
+                    want = ciede2000.de_set(cielab.lab(tuple(la)), cielab.lab(tuple(lb)))
+                    rec.count("reused_list_arguments")
+                    if min(abs(got - w) for w in want) > DE_TOL:
+                        rec.violation(f"calculate_delta_e_2000({la}, {lb}) = {got:.5f} right after a call with the same list objects holding other values; "
+                                      f"CIE definition gives {[round(w, 5) for w in want]}", {"fn": "de", "a": la, "b": lb})
+                except Exception as e:
+                    rec.violation(f"calculate_delta_e_2000 on list arguments raised {type(e).__name__}: {e}", {"fn": "de", "a": list(a), "b": list(b)})
         rec.sample({"a": list(a), "b": list(b), "library_dE": de(a, b), "oracle_dE": ciede2000.de_set(cielab.lab(a), cielab.lab(b))})
     elif k == "labhook":
         labhook(shard, rec, cm, de)
